@@ -428,11 +428,75 @@ pub fn json_parse(
     let guard = interp.heap.create_guard();
     let value = json_to_js_value_with_guard(interp, &json, &guard)?;
 
+    // Second argument: a reviver, applied bottom-up starting from the wrapper { "": value }
+    let value = match args.get(1) {
+        Some(reviver) if is_callable(reviver) => {
+            let holder = interp.create_object(&guard);
+            let root_key = PropertyKey::String(interp.intern(""));
+            holder.borrow_mut().set_property(root_key.clone(), value);
+            let revived = internalize_json_property(interp, &guard, &holder, root_key, reviver, 0)?;
+            if let JsValue::Object(o) = &revived {
+                guard.guard(o.cheap_clone());
+            }
+            revived
+        }
+        _ => value,
+    };
+
     // Return the result with the guard if it's an object
     if matches!(value, JsValue::Object(_)) {
         return Ok(Guarded::with_guard(value, guard));
     }
     Ok(Guarded::unguarded(value))
+}
+
+/// InternalizeJSONProperty: revive the members of holder[key] first, then the value itself
+fn internalize_json_property(
+    interp: &mut Interpreter,
+    guard: &Guard<JsObject>,
+    holder: &Gc<JsObject>,
+    key: PropertyKey,
+    reviver: &JsValue,
+    depth: usize,
+) -> Result<JsValue, JsError> {
+    if depth > MAX_JSON_NESTING {
+        return Err(JsError::range_error("JSON value nested too deeply"));
+    }
+    let value = holder.borrow().get_property(&key).unwrap_or(JsValue::Undefined);
+    if let JsValue::Object(obj) = &value {
+        let keys: Vec<PropertyKey> = super::object::own_enumerable_slots(&value)
+            .into_iter()
+            .filter(|(k, _)| !k.is_symbol())
+            .map(|(k, _)| k)
+            .collect();
+        for member in keys {
+            let revived = internalize_json_property(interp, guard, obj, member.clone(), reviver, depth + 1)?;
+            if revived.is_undefined() {
+                // an undefined result deletes the member
+                let is_array = obj.borrow().array_elements().is_some();
+                if is_array {
+                    obj.borrow_mut().set_property(member, JsValue::Undefined);
+                } else {
+                    obj.borrow_mut().properties.remove(&member);
+                }
+            } else {
+                if let JsValue::Object(o) = &revived {
+                    guard.guard(o.cheap_clone());
+                }
+                obj.borrow_mut().set_property(member, revived);
+            }
+        }
+    }
+    let key_arg = JsValue::String(JsString::from(key.to_string()));
+    let Guarded { value: result, guard: _g } = interp.call_function(
+        reviver.clone(),
+        JsValue::Object(holder.cheap_clone()),
+        &[key_arg, value],
+    )?;
+    if let JsValue::Object(o) = &result {
+        guard.guard(o.cheap_clone());
+    }
+    Ok(result)
 }
 
 fn is_callable(value: &JsValue) -> bool {
